@@ -311,6 +311,11 @@ def check_case(ctx: Ctx, case, reply, suite="convert", rc=None):
                  f"creating the converter raised {created[1]} instead of returning a converter or "
                  f"ProviderNotFoundError (api {case['api']}, name {case.get('fname')!r})", case)
     results = []
+    if created[0] != "ok" and case["calls"]:
+        try:                                      # whether a tag decides a predicate is known only after an evaluation
+            _expected(rc, spec, case["calls"][0])
+        except Exception:  # noqa: BLE001,S110
+            pass
     if created[0] == "ok":
         conv, stub = created[1], created[2]
         if stub is not None:
@@ -383,7 +388,9 @@ def check_case(ctx: Ctx, case, reply, suite="convert", rc=None):
         if created[0] == "ok" and any("value" in r for r in results):
             ctx.dist["generic-hint-flipped-order:result-compared-with-linking-rules"] += 1
 
-    if reply is not None and created[0] != "error":
+    if reply is not None and created[0] != "error" and spec.tag_decided:
+        ctx.dist["outside-model:tagged-hint-decides-a-predicate"] += 1      # see check_history
+    elif reply is not None and created[0] != "error":
         compared = 1
         model_view = None
         if "ok" not in reply:
@@ -579,6 +586,12 @@ def check_history(ctx: Ctx, case, reply, suite="history", rc=None):
         where = f"request #{idx} ({st['op']} on retort {st['on']}, {what}, {label})"
 
         created = rc.request(retorts[st["on"]], st, sig)
+        plain_spec = None
+        if created[0] != "ok" and st["calls"]:
+            try:                                  # whether a tag decides a predicate is known only after an evaluation
+                _expected(rc, spec, st["calls"][0])
+            except Exception:  # noqa: BLE001,S110
+                pass
         row = {"created": created[0]}
         if created[0] == "error":
             ctx.fail(f"history:create:raises-{created[1]}",
@@ -634,7 +647,12 @@ def check_history(ctx: Ctx, case, reply, suite="history", rc=None):
             ctx.dist["hist-recipe-after-plain:result-differs-from-plain-result"] += 1
         real_rows.append(row)
 
-        if model_rows is not None and created[0] != "error":
+        if model_rows is not None and created[0] != "error" and \
+                (spec.tag_decided or (plain_spec is not None and plain_spec.tag_decided)):
+            # a type hint tag (NotRequired / Annotated) hid a field's type from a predicate that holds of the bare type:
+            # the Lean model's locations carry no tags - the request is judged by the oracle only
+            ctx.dist["outside-model:tagged-hint-decides-a-predicate"] += 1
+        elif model_rows is not None and created[0] != "error":
             compared += 1
             m = model_rows[idx]
             mv = {"created": "ok" if m.get("created") else "not_found"}
